@@ -401,12 +401,16 @@ class LP_Solver:
         student_multiplier = 1 if len(cost_multipliers) < 1 else cost_multipliers[0]
         lecturer_multiplier = 0 if len(cost_multipliers) < 2 else cost_multipliers[1]
         self.info_string += '- optimisation: minimising sum of square of ranks\n'
-        up_bound_st = (self.model.num_students * len(self.model.rank_lists))**2 * student_multiplier
-        up_bound_lec = (self.model.num_lecturers * self.model.num_students)**2 * lecturer_multiplier
+        # No matching can cost more than all pairs together.
+        up_bound = 0
+        for pair in list(chain.from_iterable(self.model.pairs)):
+            up_bound += pair.rank_student**2 * student_multiplier
+            if (hasattr(pair, 'rank_lecturer')):
+              up_bound += pair.rank_lecturer**2 * lecturer_multiplier
         obj = LpVariable(
                 "obj_mincost", 
                 lowBound = 0, 
-                upBound = up_bound_st + up_bound_lec,
+                upBound = up_bound,
                 cat = "Integer")
         sum_costs_exp = LpAffineExpression()
         for pair in list(chain.from_iterable(self.model.pairs)):
